@@ -829,6 +829,7 @@ NDET_METHODS = {"glob", "iterdir", "rglob"}
 
 def rule_ndet1(ctx: Ctx) -> RuleResult:
     rr = RuleResult("NDET-1", "nondeterministic primitives occur only where the property permits them", floor=4)
+    st_hash = "tokens derived from hash() are used for equality / membership only"
     lib = ctx.lib_cone
     for f in sorted(ctx.prog.all_funcs(), key=lambda x: x.key):
         for n in walk_no_nested(f.node):
@@ -874,4 +875,16 @@ def rule_ndet1(ctx: Ctx) -> RuleResult:
             else:
                 rr.ob(f.relpath, f.qualname, text, st, VIOLATED, "nondeterministic primitive on a CLI path outside the "
                       "permitted sites (header timestamp, glob, coverage switch)", n.lineno)
+    # NDET-2: de-duplication tokens (which embed hash() for raw objects) are compared for equality only - never ordered
+    for f in sorted(ctx.prog.all_funcs(), key=lambda x: x.key):
+        for n in walk_no_nested(f.node):
+            if isinstance(n, ast.Call) and (norm(n.func) in ("sorted", "min", "max") or (
+                    isinstance(n.func, ast.Attribute) and n.func.attr == "sort")):
+                for k in n.keywords:
+                    if k.arg == "key" and any((isinstance(x, ast.Name) and x.id == "get_hash_string") or (
+                            isinstance(x, ast.Attribute) and x.attr in ("to_hash_string", "_to_hash_string")) for x in ast.walk(k.value)):
+                        rr.instances += 1
+                        rr.ob(f.relpath, f.qualname, norm(n)[:70], st_hash, VIOLATED,
+                              "the hash token is used as a sort key: for raw objects it is str(hash(...)), which changes with "
+                              "PYTHONHASHSEED, so the resulting order (and the merged field order) differs between runs", n.lineno)
     return rr
